@@ -91,6 +91,9 @@ def parseCons : Sexp → Option Cons
   | .atom "min" => some .min
   | .atom "max" => some .max
   | .atom "minmax" => some .minMax
+  | .atom "foldpair" => some .foldPair
+  | .list [.atom "suminit", v] => (parseVal v).map Cons.sumInit
+  | .list [.atom "productinit", v] => (parseVal v).map Cons.productInit
   | .list [.atom "minby", k] => (parseKeyFn k).map Cons.minBy
   | .list [.atom "maxby", k] => (parseKeyFn k).map Cons.maxBy
   | .list [.atom "minmaxby", k] => (parseKeyFn k).map Cons.minMaxBy
